@@ -355,7 +355,7 @@ def main():
                 "connections can reach (shared_state_audit over the extracted inventory)")
     chk.tie(["MimicProps.C08"])
     rng = random.Random(chk.seed * 86028121 + 8)
-    ncases = 260 if chk.thorough else 45
+    ncases = 1500 if chk.thorough else 45
 
     async def go():
         L, I, D = [], [], []
